@@ -842,8 +842,8 @@ def shard(idx, n, tier, seed, bins, cli):
     tmp = tempfile.mkdtemp(prefix="c15-")
     sh = Shard(acc, bins, cli, tmp)
     try:
-        ntrees = 6 if tier == "quick" else 40
-        per_tree = 18 if tier == "quick" else 60
+        ntrees = 6 if tier == "quick" else 18
+        per_tree = 18 if tier == "quick" else 40
         mem_per_tree = 1 if tier == "quick" else 3
         k = 0
         dtree = Tree(os.path.join(tmp, "directed"), runner.rng_for(seed, "c15-directed"), 0)
